@@ -207,6 +207,139 @@ theorem distinct_never_rejected (n : Nat) (inputs : Nat → List Nat) (h : (allT
   · exact List.nodup_iff_count.mp h a
   · omega
 
+/-! ## Uneven sharding: the shard that owns a duplicated tag may hold nothing of its own (b17)
+
+`dup_detected_iff` and `dup_on_picker_shard` quantify over ALL per-shard inputs `inputs : Nat → List
+Nat`, empty and singleton shards included.  The corollaries below make the small-shard case explicit:
+what a shard validates are the tags ROUTED to it, whose number is unrelated to the number of reports
+it received as its own input (`ownSize`). -/
+
+/-- **dup_detected_on_picker.** Whatever the distribution of the reports over the shards: a tag that
+occurs at least twice in the whole input is reported by the shard `tag mod n`, and the index
+reported is a position of that shard's routed tags. -/
+theorem dup_detected_on_picker (n : Nat) (hn : 1 ≤ n) (inputs : Nat → List Nat) (a : Nat)
+    (ha : 2 ≤ (allTags n inputs).count a) :
+    a % n < n ∧ ∃ k, detect n inputs (a % n) = some k ∧ 1 ≤ k ∧ k ≤ (routed n inputs (a % n)).length := by
+  refine ⟨Nat.mod_lt _ (by omega), ?_⟩
+  cases h : detect n inputs (a % n) with
+  | none =>
+    exfalso
+    have hnd := ((checkDuplicates_none _ {}).mp h).1
+    have : 2 ≤ (routed n inputs (a % n)).count a := by rw [count_routed]; simpa using ha
+    exact (not_nodup_iff _).mpr ⟨a, this⟩ hnd
+  | some k =>
+    obtain ⟨j, hk, hj, _⟩ := checkDuplicates_some (routed n inputs (a % n)) {} k h
+    have hk' : k = j + 1 := by simpa using hk
+    exact ⟨k, rfl, by omega, by omega⟩
+
+/-- **dup_detected_on_small_shard.** The shard that owns the duplicated tag rejects it also when it
+was handed NO report or exactly ONE report as its own input — both copies submitted on other shards,
+or one copy being its only report: `ownSize` plays no role. -/
+theorem dup_detected_on_small_shard (n : Nat) (hn : 1 ≤ n) (inputs : Nat → List Nat) (a : Nat)
+    (ha : 2 ≤ (allTags n inputs).count a) (_hsmall : ownSize inputs (a % n) ≤ 1) :
+    ∃ k, detect n inputs (a % n) = some k :=
+  let ⟨_, k, hk, _⟩ := dup_detected_on_picker n hn inputs a ha
+  ⟨k, hk⟩
+
+/-- the hypotheses are satisfiable with an EMPTY picker shard (both copies on shard 0, tag 7 owned by
+shard 1 of 2) and with a SINGLETON picker shard (one copy is shard 1's only report) -/
+example : 2 ≤ (allTags 2 (fun s => [[7, 4, 7], []].getD s [])).count 7 ∧ ownSize (fun s => [[7, 4, 7], []].getD s []) (7 % 2) = 0 ∧
+    detect 2 (fun s => [[7, 4, 7], []].getD s []) 1 = some 2 := by decide
+example : 2 ≤ (allTags 2 (fun s => [[7, 4], [7]].getD s [])).count 7 ∧ ownSize (fun s => [[7, 4], [7]].getD s []) (7 % 2) = 1 ∧
+    detect 2 (fun s => [[7, 4], [7]].getD s []) 1 = some 2 := by decide
+
+/-- **check_is_unconditional.** The code is the unguarded step: the statement
+`….check_duplicates(&resharded_tags)?;` regenerated from `Query::execute` is enclosed by no block
+(`checkGuards = []`) and is applied to the tags returned by `reshard_aad`; and `detectIf` with the
+trivial guard is `detect`, the function all theorems above are about. -/
+theorem check_is_unconditional :
+    IpaVerif.Generated.Dedup.checkGuards = [] ∧ IpaVerif.Generated.Dedup.checkAppliesToReshardedTags = true ∧
+    ∀ n inputs d, detectIf (fun _ _ => true) n inputs d = detect n inputs d := by
+  refine ⟨by decide, by decide, ?_⟩
+  intro n inputs d; simp [detectIf]
+
+/-- **guarded_check_counterexample** (seed C11d: `if decrypted_reports.len() > 1 { … }`).  With the
+validator step guarded by the shard's OWN input size, duplicates are accepted by every shard: two
+shards, tag 7 is owned by shard 1; (i) shard 1 has no report of its own and both copies sit on shard
+0; (ii) shard 1's single report is one of the copies; (iii) three shards, the copies on two different
+other shards.  The unguarded step of the code rejects each of them on shard `7 mod n`. -/
+theorem guarded_check_counterexample :
+    (let inputs := fun s => [[7, 4, 7], []].getD s []
+     ¬ (allTags 2 inputs).Nodup ∧ (∀ d, d < 2 → detectIf ownAtLeastTwo 2 inputs d = none) ∧ detect 2 inputs 1 = some 2) ∧
+    (let inputs := fun s => [[7, 4], [7]].getD s []
+     ¬ (allTags 2 inputs).Nodup ∧ (∀ d, d < 2 → detectIf ownAtLeastTwo 2 inputs d = none) ∧ detect 2 inputs 1 = some 2) ∧
+    (let inputs := fun s => [[7, 9, 2], [], [5, 7, 11]].getD s []
+     ¬ (allTags 3 inputs).Nodup ∧ (∀ d, d < 3 → detectIf ownAtLeastTwo 3 inputs d = none) ∧ detect 3 inputs 1 = some 2) := by
+  decide
+
+/-- **own_size_guard_misses.**  Not only that guard: ANY guard that skips the validator for some own
+size `own` when two tags are routed to the shard accepts a duplicate — two shards, both copies of tag 1
+on shard 0, shard 1 holds `own` reports with even (hence distinct, shard-0-owned) tags. -/
+theorem own_size_guard_misses (guard : Nat → Nat → Bool) (own : Nat) (hg : guard own 2 = false) :
+    let inputs : Nat → List Nat := fun s => if s = 0 then [1, 1] else if s = 1 then (List.range own).map (2 * · + 2) else []
+    ¬ (allTags 2 inputs).Nodup ∧ ∀ d, d < 2 → detectIf guard 2 inputs d = none := by
+  intro inputs
+  have hall : allTags 2 inputs = [1, 1] ++ (List.range own).map (2 * · + 2) := by
+    simp [allTags, inputs, List.range_succ]
+  have hcnt : ∀ a, (((List.range own).map (2 * · + 2)).count a) ≤ 1 ∧ (a % 2 = 1 → ((List.range own).map (2 * · + 2)).count a = 0) := by
+    intro a
+    have hnd : ((List.range own).map (2 * · + 2)).Nodup := by
+      rw [List.Nodup, List.pairwise_map]
+      exact List.Pairwise.imp (fun h => by omega) List.nodup_range
+    refine ⟨List.nodup_iff_count.mp hnd a, fun hodd => List.count_eq_zero.mpr ?_⟩
+    intro hmem
+    obtain ⟨x, _, hx⟩ := List.mem_map.mp hmem
+    omega
+  refine ⟨?_, ?_⟩
+  · rw [hall]; intro h
+    have := List.nodup_iff_count.mp h 1
+    simp at this
+  · intro d hd
+    have hd' : d = 0 ∨ d = 1 := by omega
+    rcases hd' with rfl | rfl
+    · -- shard 0 owns the even tags only: duplicate-free, whatever the guard says
+      have : detect 2 inputs 0 = none := by
+        apply (checkDuplicates_none _ {}).mpr
+        refine ⟨?_, by simp⟩
+        rw [List.nodup_iff_count]
+        intro a
+        rw [count_routed, hall, List.count_append]
+        split
+        · rename_i hev
+          have : ([1, 1] : List Nat).count a = 0 := by
+            apply List.count_eq_zero.mpr; intro hm; simp at hm; omega
+          have := (hcnt a).1; omega
+        · omega
+      simp [detectIf, this]
+    · -- shard 1: `own` reports of its own, exactly two routed tags (1, 1): the guard skips the step
+      have hlen : (routed 2 inputs 1).length = 2 := by
+        have hsum : ∀ l : List Nat, (∀ a, l.count a = if a = 1 then 2 else 0) → l.length = 2 := by
+          intro l hl
+          have h1 : l = List.replicate l.length 1 := by
+            apply List.eq_replicate_iff.mpr
+            refine ⟨rfl, fun b hb => ?_⟩
+            have := List.count_pos_iff.mpr hb
+            rw [hl] at this; split at this <;> omega
+          have := hl 1
+          rw [h1, List.count_replicate_self] at this
+          simpa using this
+        apply hsum
+        intro a
+        rw [count_routed, hall, List.count_append]
+        by_cases ha : a = 1
+        · subst ha; simp [(hcnt 1).2 (by decide)]
+        · simp only [ha, if_false]
+          split
+          · rename_i hodd
+            have : ([1, 1] : List Nat).count a = 0 := by
+              apply List.count_eq_zero.mpr; intro hm; simp at hm; omega
+            rw [this, (hcnt a).2 hodd]
+          · rfl
+      have hown : ownSize inputs 1 = own := by simp [ownSize, inputs]
+      simp [detectIf, hown, hlen, hg]
+
+example : ownAtLeastTwo 1 2 = false ∧ ownAtLeastTwo 0 2 = false := by decide
+
 /-- the check precedes attribution: in `Query::execute` the only thing computed from the reports
 between `reshard_aad` and `check_duplicates(..)?` is the validator; the translator item
 `dedup.check_before_protocol` pins the statement order. (Recorded here for the evidence.) -/
